@@ -75,7 +75,7 @@ Definition parse_route_param (s : bytes) : res route_param :=
   | None => Err
   | Some pos =>
       let! na := parse_name_addr (firstn (S pos) s) in
-      match trim_space (skipn (S pos) s) with
+      match trim_space_go (skipn (S pos) s) with
       | [] => Ok {| r_addr := na; r_params := [] |}
       | c :: rest =>
           if Ascii.eqb c ";"%char then
